@@ -128,10 +128,11 @@ def cases_from_histories(hists, rng, slot0):
             g += 1
             seed = rng.randint(1, 10 ** 9)
             flt = SUP_FLT[(a["sn"], a["sd"])]
+            cpu = rng.choice(rz.CPUS)            # the same back-end for the fresh and the reused run
             for rzid in (-1, slot):
                 chk = ["pipeline", "no_panic", "outside", "srcsame"] + (["memo_exact"] if rzid >= 0 else [])
                 cases.append(rz.resize_case(pt, sw, sh, dw, dh, alg=a["alg"], flt=flt, m=a["m"], alpha=a["useAlpha"], box=box, Q=Q,
-                                            cpu=rng.choice(rz.CPUS), rz=rzid, src_c={"g": "rand", "seed": seed, "flo": 0.0, "fhi": 1.0},
+                                            cpu=cpu, rz=rzid, src_c={"g": "rand", "seed": seed, "flo": 0.0, "fhi": 1.0},
                                             log=("digest",), chk=chk, g=g, sent=seed % 9973))
     return cases
 
